@@ -175,6 +175,11 @@ def gen_op(rng, o, n, valid):
         res = rng.choice([(1, -1), (2, -2), (3, -4), (0.5, -0.25), (10, -10)])
         a["transform"] = [res[0], 0, rng.choice([0, 5]), 0, res[1], rng.choice([0, 40])]
         a["latlon"] = rng.random() < 0.3 and abs(res[1]) <= 4
+        if rng.random() < 0.35:
+            # same affine as the object was built with, only the latlon flag changes
+            t = o.transform
+            a["transform"] = [t.a, t.b, t.c, t.d, t.e, t.f]
+            a["latlon"] = (not o.latlon) and abs(t.e) <= 4
     return name, a, ("mutator" if name in mutators else "query")
 
 
@@ -421,6 +426,9 @@ def run(ctx):
         dict(base, ops=[("upstream_area_unit", {"unit": "m2"}), ("set_transform", {"transform": [10, 0, 0, 0, -10, 0], "latlon": False}),
                         ("upstream_area_unit", {"unit": "m2"}), ("distnc", {})]),
         dict(base, ops=[("main_upstream", {"uparea": [9.0, 1, 1, 1, 1, 1]}), ("idxs_us_main", {}), ("path", {"idxs": [2], "direction": "up", "max_length": None, "mask": None, "unit": "cell"})]),
+        dict(base, ops=[("area", {}), ("distnc", {}), ("set_transform", {"transform": [1, 0, 0, 0, -1, 0], "latlon": True}),
+                        ("area", {}), ("upstream_area_unit", {"unit": "km2"})]),
+        dict(base, ds=[0, 2, 1, 2, 3, 4], ops=[("nnodes", {}), ("idxs_seq", {}), ("repair_loops", {}), ("nnodes", {}), ("rank", {})]),
         dict(base, cache=False, ops=[("rank", {}), ("stream_order", {"type": "strahler", "mask": None}), ("distnc", {}), ("idxs_us_main", {})]),
         dict(base, ops=[("order_cells", {"method": "sort"}), ("dem_adjust", {"elevtn": [3, 1, 2, 5, 0, 4]}), ("dumpload", {}), ("dem_adjust", {"elevtn": [3, 1, 2, 5, 0, 4]})]),
     ]
